@@ -312,6 +312,13 @@ impl<'a, 'src: 'a> Compiler<'a, 'src> {
     }
   }
 
+  /// Continue emitting inline cache ids after the ones an earlier
+  /// compilation of this module handed out
+  pub fn with_cache_id_emitter(self, cache_id_emitter: CacheIdEmitter) -> Self {
+    self.cache_id_emitter.replace(cache_id_emitter);
+    self
+  }
+
   /// Compile the provided ast into managed function objects that
   /// contain the vm bytecode
   pub fn compile(
